@@ -18,6 +18,7 @@ def extraCmds : List (String × (Bool → List String → String)) :=
     ("SIGHASH", cmdSighash), ("PRECOMP", cmdPrecomp), ("CHECKSIGTX", cmdChecksigTx), ("CHECKLOCK", cmdChecklock),
     ("INSTTXDATA", cmdInstTxData), ("CALCSIGHASH", cmdCalcSighash), ("PRUN", cmdPrun),
     ("SPEND", fun spec a => if spec then cmdSpendSpec a else cmdSpendModel a),
+    ("SPENDR", fun spec a => if spec then cmdSpendSpec a else cmdSpendModelR true a),
     ("LISTING", cmdListing),
     ("TF", cmdTf), ("INLINE", cmdInline) ]
 
